@@ -138,14 +138,21 @@ Proof.
   cbn [step]. destruct (holder s) as [c|] eqn:Eh; [exact HI|].
   destruct fs as [|f fs]; [exact HI|]. cbn [cur] in H0.
   destruct H0 as (He & Ha & Ho & Hc & Hd & Hf & Hm & Hk).
-  destruct (closed s) eqn:Ec.
-  - apply inv_of_inv0; cbn; [|intros; discriminate].
+  assert (Hrefuse : forall r, r <> ROk ->
+            Inv m (mk (slots s) (closed s) None (dr s) (extra s) (attempted s) (failed s) (dropped s)
+                      (calls s ++ [(f :: fs, [], r)]))).
+  { intros r Hr. apply inv_of_inv0; cbn; [|intros; discriminate].
     unfold Inv0; cbn. rewrite concat_map_snoc. cbn. rewrite !app_nil_r in *.
-    repeat split; auto; try (intros; discriminate); try (apply Hm; assumption).
+    repeat split; auto; try (intros; discriminate); try (apply Ho; assumption); try (apply Hm; assumption).
     apply Forall_app. split; auto. constructor; [|constructor].
-    cbn. repeat split; auto; try (intros; discriminate). now exists (f :: fs).
-  - apply set_holder_inv; cbn; auto; [|discriminate].
-    unfold Inv0; cbn. rewrite Ec. repeat split; auto; try (apply Ho; reflexivity); try (apply Hm; assumption).
+    cbn. repeat split; auto; try (intros; discriminate); try contradiction. now exists (f :: fs). }
+  destruct (closed s) eqn:Ec.
+  - apply Hrefuse. discriminate.
+  - destruct (no_room m maxq s (f :: fs)).
+    + apply Hrefuse. discriminate.
+    + apply set_holder_inv; cbn; auto; [|discriminate].
+      unfold Inv0; cbn. rewrite Ec. repeat split; auto; try (apply Ho; assumption); try (apply Hm; assumption);
+        try (intros; discriminate).
 Qed.
 
 Lemma close_inv s : Inv m s -> Inv m (step m maxq s CloseClean).
@@ -535,4 +542,83 @@ Proof.
   pose proof (quiescent_wire m maxq acts Hc Hf Hd) as Q. fold s in Q. rewrite Q.
   unfold accepted. rewrite Hh. cbn. rewrite app_nil_r.
   apply concat_ok_calls; auto. apply calls_ok.
+Qed.
+
+(* ---- a bounded queue takes a WriteMessage as a whole or not at all ---- *)
+(* the call that passed the whole-message check keeps room for the frames it still has to queue (nobody else appends
+   while it holds the mutex, and the queue only shrinks by the drainer's truncation, which needs the mutex too), so
+   writeFrame's own per-frame check never fires inside a call: a call refused as full has accepted nothing *)
+Definition Room (m : mode) (maxq : nat) (s : st) : Prop :=
+  (forall c, holder s = Some c -> m = Queued -> 0 < maxq -> length (slots s) + length (crest c) <= maxq) /\
+  Forall (fun c => snd c = RFull -> snd (fst c) = []) (calls s).
+
+Lemma room_init m maxq : Room m maxq init.
+Proof. split; [intros c H; discriminate|constructor]. Qed.
+
+Lemma room_snoc (l : list (list nat * list nat * result)) x :
+  Forall (fun c => snd c = RFull -> snd (fst c) = []) l -> (snd x = RFull -> snd (fst x) = []) ->
+  Forall (fun c => snd c = RFull -> snd (fst c) = []) (l ++ [x]).
+Proof. intros H1 H2. apply Forall_app. split; auto. Qed.
+
+Lemma step_room m maxq s a : Room m maxq s -> Room m maxq (step m maxq s a).
+Proof.
+  intros (Hr & Hk). destruct a as [fs|ok|ok| |]; cbn [step].
+  - (* Begin *)
+    destruct (holder s) as [c|] eqn:Eh; [split; [now rewrite Eh|auto]|].
+    destruct fs as [|f fs]; [split; [now rewrite Eh|auto]|].
+    destruct (closed s).
+    + split; cbn; [intros c H; discriminate|apply room_snoc; auto; cbn; discriminate].
+    + destruct (no_room m maxq s (f :: fs)) eqn:En.
+      * split; cbn; [intros c H; discriminate|apply room_snoc; auto].
+      * split; cbn; auto. intros c H Hm Hq. inversion H; subst. cbn.
+        unfold no_room in En. destruct maxq as [|q]; [lia|]. apply Nat.ltb_ge in En. cbn in En. lia.
+  - (* Frame *)
+    destruct (holder s) as [c|] eqn:Eh; [|split; [now rewrite Eh|auto]].
+    destruct (crest c) as [|f rest] eqn:Er; [split; [now rewrite Eh|auto]|].
+    assert (Hfin : forall s1 c1 r, calls s1 = calls s -> r <> RFull -> Room m maxq (finish s1 c1 r)).
+    { intros s1 c1 r E R. split; cbn; [intros c0 H; discriminate|]. rewrite E. apply room_snoc; auto. cbn. intros; contradiction. }
+    assert (Hadv : forall s1, calls s1 = calls s ->
+              (m = Queued -> 0 < maxq -> length (slots s1) + length rest <= maxq) ->
+              Room m maxq (advance_call s1 c f rest)).
+    { intros s1 E L. unfold advance_call. destruct rest as [|g rest]; [apply Hfin; auto; discriminate|].
+      split; cbn; [|now rewrite E]. intros c0 H Hm Hq. inversion H; subst. cbn. apply L; auto. }
+    destruct m.
+    + destruct ok; [apply Hadv; auto; intros; discriminate|apply Hfin; auto; discriminate].
+    + pose proof (Hr c eq_refl eq_refl) as L. rewrite Er in L. cbn in L.
+      assert (Hnf : full maxq s = false).
+      { unfold full. destruct maxq as [|q]; auto. apply Nat.leb_gt. specialize (L ltac:(lia)). lia. }
+      rewrite Hnf.
+      destruct (slots s) as [|x l] eqn:Es.
+      * destruct (dr s); apply Hadv; auto; cbn; intros _ Hq; specialize (L Hq); cbn in L; lia.
+      * apply Hadv; auto. cbn. intros _ Hq. specialize (L Hq). cbn in L. rewrite app_length. cbn. lia.
+  - (* DWrite *)
+    destruct (dr s) as [[i [f|]]|]; try (split; auto; fail). destruct ok; split; cbn; auto.
+  - (* DAdvance *)
+    destruct (holder s) as [c|] eqn:Eh; [split; [now rewrite Eh|auto]|].
+    destruct (dr s) as [[i [f|]]|]; try (split; [now rewrite Eh|auto]; fail).
+    destruct (closed s); [split; cbn; auto; intros c H; discriminate|].
+    destruct (length (slots s) <=? i); [split; cbn; auto; intros c H; discriminate|].
+    destruct (nth i (slots s) None); split; cbn; auto; intros c H; discriminate.
+  - (* CloseClean *)
+    destruct (holder s) as [c|] eqn:Eh; [split; [now rewrite Eh|auto]|].
+    destruct (closed s); [split; [now rewrite Eh|auto]|]. split; cbn; auto. intros c H; discriminate.
+Qed.
+
+Theorem room_all m maxq acts : Room m maxq (run m maxq acts).
+Proof.
+  unfold run. assert (G : forall acts s, Room m maxq s -> Room m maxq (fold_left (step m maxq) acts s)).
+  { clear acts. induction acts as [|a r IH]; intros s H; cbn; auto. apply IH, step_room, H. }
+  apply G, room_init.
+Qed.
+
+(* every finished call: nil => all its frames accepted; closed or queue full => none (a socket error in direct mode
+   is the only way to a proper prefix) *)
+Theorem all_or_none m maxq acts :
+  Forall (fun c => let '(fs, acc, r) := c in
+                   (r = ROk -> acc = fs) /\ (r = RClosed -> acc = []) /\ (r = RFull -> acc = []))
+         (calls (run m maxq acts)).
+Proof.
+  pose proof (calls_ok m maxq acts) as Hk. destruct (room_all m maxq acts) as (_ & Hf).
+  rewrite Forall_forall in *. intros [[fs acc] r] Hin.
+  specialize (Hk _ Hin). specialize (Hf _ Hin). cbn in *. destruct Hk as (_ & H1 & H2 & _). auto.
 Qed.
